@@ -749,8 +749,12 @@ impl<K: CacheKey + 'static> AsyncCache<K> for DiskCache<K> {
                         vp_sched!("disk.get.fallback.index");
                         if let Ok(mut index) = self.index.write()
                             && !index.contains_key(key)
+                            && file_path.exists()
                         {
-                            // (a concurrent put may have indexed the key in the meantime)
+                            // (a concurrent put may have indexed the key in the meantime, and
+                            // a concurrent remove or clear may have deleted the file since it
+                            // was read - both change files only under this lock - so the
+                            // file is looked at again before an entry is booked for it)
                             index.insert(key.clone(), entry);
                             self.entry_count.fetch_add(1, Ordering::Relaxed);
                             self.disk_usage
